@@ -118,7 +118,7 @@ theorem removeRaw_spec (x : AStr) (a : Option SArg) (start end_ : Option Int) (y
       | ok ts =>
         rw [hs] at h
         injection h with h
-        exact Or.inr (Or.inr ⟨arg, ts, rfl, rfl, h.symm⟩)
+        exact Or.inr (Or.inr ⟨arg, ts, rfl, hs, h.symm⟩)
 
 /-! ## Non-vacuity: `abcd`, red and blue (two objects) over the whole text, remove red on `[1,2)` -/
 
@@ -180,7 +180,44 @@ example : sliceIdx x0.len (some 2) 0 ≥ x0.len ∨ sliceIdx x0.len (some 2) x0.
 example : act (x0.removeFormatting none (some 1) (some (-1))) 2 = [] := by decide
 example : act (x0.removeFormatting none (some 1) (some (-1))) 3 = [red, blue] := by decide
 /-- the raw entry point on a string argument -/
-example : x0.removeRaw (some (.obj "31".toList)) (some 1) (some 2) = .ok y0 := by decide
+example : x0.removeRaw (some (.obj "31".toList)) (some 1) (some 2) = .ok y0 := rfl
+
+/-! a second value: a change point strictly inside the range, the removed setting in the middle of
+    the precedence order at `end` (so `carried = [red, c]`, `c` is stopped and restarted above `red`) -/
+
+def a : Setting := ⟨2, "1".toList⟩
+def c : Setting := ⟨3, "4".toList⟩
+
+def x1 : AStr :=
+  { s := "abcdef".toList,
+    fmts := [(0, { add := [a] }), (1, { add := [red] }), (3, { add := [c] }), (5, { rem := [red] }),
+             (6, { rem := [a, c] })] }
+
+theorem x1_wf : WF x1 where
+  sorted := by unfold SortedKeys; decide
+  bound := by decide
+  noAddEnd := by decide
+  ok := by decide
+  nodup := by
+    intro i
+    unfold active x1
+    simp only [activeFrom]
+    repeat' split
+    all_goals decide
+  closed := by decide
+  coherent := by decide
+
+def y1 : AStr := x1.removeFormatting (some ["31".toList]) (some 2) (some 4)
+
+example : (List.range 6).map (act x1) = [[a], [a, red], [a, red], [a, red, c], [a, red, c], [a, c]] := by decide
+example : (List.range 6).map (act y1) = [[a], [a, red], [a], [a, c], [a, red, c], [a, c]] := by decide
+example : y1.fmts =
+    [(0, { add := [a] }), (1, { add := [red] }), (2, { rem := [red] }), (3, { add := [c] }),
+     (4, { add := [red, c], rem := [c] }), (5, { rem := [red] }), (6, { rem := [a, c] })] := by decide
+example : act y1 4 = act x1 4 := remove_outside x1 x1_wf _ _ _ 4 (Or.inr (by decide))
+example : act y1 3 = (act x1 3).filter (fun s => !AStr.selected (some ["31".toList]) s) :=
+  remove_inside x1 x1_wf _ _ _ 3 (by decide) (by decide) (by decide)
+example : WF y1 := remove_wf x1 x1_wf _ _ _
 
 end C07Ex
 
